@@ -138,6 +138,8 @@ def _attach(case, sub, obj, divisor):
     if conn is not None:
         conn.transport = t
     ch._base_channel_args.timeout_ops = case["ivl"] * divisor
+    if sub.get("depth") or case.get("depth"):
+        ch._base_channel_args.comms_prompt_search_depth = sub.get("depth") or case.get("depth")
     return dev, t, clock
 
 
@@ -680,6 +682,54 @@ def history_cases(tier, rng):
     return out
 
 
+TAILS = ["see <https://noc.example.net/helpdesk>", "mail noc@example.net/helpdesk#", "cost centre (ops/tier-2)$",
+         "escalate to ops:tier-2>", "ticket queue net-ops/r1.lab#"]
+FILLER = ["This system is for authorised use only.", "All activity on this device is recorded and may be audited", "Scheduled maintenance every first Sunday 02:00-04:00 UTC",
+          "Report faults to the network operations centre", "Unauthorised access is prohibited and will be prosecuted"]
+
+
+def long_banner(total, pad, tail_i):
+    """>= total bytes of banner lines that END in prompt-like text (a URL in angle brackets, a mail address with a `#`, ...) while
+    no whole line and no line prefix is a shell prompt or a credential prompt; `pad` shifts every line boundary by that many bytes"""
+    out = ("=" * pad + "\n") if pad else ""
+    i = 0
+    while len(out) < total:
+        out += FILLER[(i + tail_i) % len(FILLER)] + " " + TAILS[(i + tail_i) % len(TAILS)] + "\n"
+        i += 1
+    return out
+
+
+def longbanner_cases(tier, rng):
+    """pre-login banners of 1x, 2x, 5x comms_prompt_search_depth (default 1000, and small configured depths to keep the streams
+    short) delivered in reads of their own BEFORE the login prompt, every alignment of the line ends relative to a byte position
+    `depth` back from the end of what was read (a login loop must keep looking at whole lines, however long the banner is)"""
+    out = []
+    combos = [(fl, st) for fl in ("telnet", "ssh") for st in ("sync", "async")]
+    def mk(fl, st, depth, mult, pad, tail_i, parts):
+        pre = long_banner(depth * mult, pad, tail_i)
+        if fl == "telnet":
+            c = base_case("telnet", st, user_prompt="login: ", pass_prompt="Password: ", pre=pre, banner="Welcome\n")
+        else:
+            c = base_case("ssh", st, pass_prompt="admin@r1's password: ", pre=pre, banner="Welcome\n")
+        n = len(pre)
+        c["cuts"] = ["at", sorted({n * k // parts for k in range(1, parts + 1)})]
+        c["build"] = "driver" if (pad + mult) % 2 else "args"
+        if depth != 1000:
+            c["depth"] = depth
+        return c
+    for fl, st in combos:
+        # small depth: every alignment
+        for depth, mult in ((64, 1), (64, 3)) + (((48, 5),) if tier == "thorough" else ()):
+            for pad in range(0, 70, 1 if (tier == "thorough" or (fl == "telnet" and st == "async")) else 3):
+                out.append(mk(fl, st, depth, mult, pad, pad % len(TAILS), 1 + pad % 3))
+        # the default depth: 1x, 2x, 5x
+        for mult in (1, 2, 5):
+            npad = 45 if tier == "thorough" else (5 if mult < 5 else (3 if st == "async" else 1))
+            for pad in rng.sample(range(0, 90), npad):
+                out.append(mk(fl, st, 1000, mult, pad, rng.randrange(len(TAILS)), rng.choice([1, 2, 3, 5])))
+    return out
+
+
 def rand_cuts(rng, case):
     n = stream_len_estimate(case) + 30
     r = rng.random()
@@ -884,7 +934,8 @@ def run(tier, seed):
                "password prompt, 'Permission denied, please try again') x credentials (valid / wrong password / wrong user / wrong "
                "passphrase) x cut schedule (whole, 1-byte, every single and double cut of the output stream for the short dialogues, "
                "PRNG cut lists) x clock script for empty reads x sync/async x channel built as BaseChannelArgs() or by Driver()/AsyncDriver() with default arguments x loop called "
-               "directly or through driver.open() x histories of 1..4 logins on ONE object (ok / re-prompted / rejected / passphrase). "
+               "directly or through driver.open() x long pre-login banners (1x, 2x, 5x comms_prompt_search_depth, default and small configured depth, lines ending in prompt-like "
+               "text, every alignment, delivered in reads of their own before the login prompt) x histories of 1..4 logins on ONE object (ok / re-prompted / rejected / passphrase). "
                "Non-trivial = at least one credential write and at least two reads; distinct by the full case record. Each case runs "
                "the real login loop over a causal device and the Lean model on the recorded read tape; the oracle judges the "
                "device-side log (state, bytes written) and the exception class.")
@@ -926,6 +977,8 @@ def run(tier, seed):
         cases.append(c); streams.append("connerr")
     for c in history_cases(tier, ck.rng):
         cases.append(c); streams.append("history")
+    for c in longbanner_cases(tier, ck.rng):
+        cases.append(c); streams.append("longbanner")
     nrand = 1500 if tier == "quick" else 30000
     for i in range(nrand):
         st = "clean" if i % 10 < 5 else ("prefixy" if i % 10 < 8 else "outdomain")
